@@ -641,6 +641,11 @@ struct Value {
     inline bool operator<(const Value &val) const noexcept {
         const ValueType type = Type();
 
+        if (val.Type() == ValueType::ValuePtr) {
+            // Read through a pointer on the right-hand side too.
+            return (*this < *(val.value_));
+        }
+
         if (type == val.Type()) {
             switch (type) {
                 case ValueType::Object: {
@@ -687,6 +692,11 @@ struct Value {
 
     inline bool operator>(const Value &val) const noexcept {
         const ValueType type = Type();
+
+        if (val.Type() == ValueType::ValuePtr) {
+            // Read through a pointer on the right-hand side too.
+            return (*this > *(val.value_));
+        }
 
         if (type == val.Type()) {
             switch (type) {
@@ -735,6 +745,11 @@ struct Value {
     inline bool operator<=(const Value &val) const noexcept {
         const ValueType type = Type();
 
+        if (val.Type() == ValueType::ValuePtr) {
+            // Read through a pointer on the right-hand side too.
+            return (*this <= *(val.value_));
+        }
+
         if (type == val.Type()) {
             switch (type) {
                 case ValueType::Object: {
@@ -782,6 +797,11 @@ struct Value {
     inline bool operator>=(const Value &val) const noexcept {
         const ValueType type = Type();
 
+        if (val.Type() == ValueType::ValuePtr) {
+            // Read through a pointer on the right-hand side too.
+            return (*this >= *(val.value_));
+        }
+
         if (type == val.Type()) {
             switch (type) {
                 case ValueType::Object: {
@@ -828,6 +848,11 @@ struct Value {
 
     inline bool operator==(const Value &val) const noexcept {
         const ValueType type = Type();
+
+        if (val.Type() == ValueType::ValuePtr) {
+            // Read through a pointer on the right-hand side too.
+            return (*this == *(val.value_));
+        }
 
         if (type == val.Type()) {
             switch (type) {
